@@ -265,10 +265,16 @@ pub fn batch(
     budget: &Budget,
     threads: usize,
     is_known: &(dyn Fn(&Violation) -> Option<String> + Sync),
+    on_hang: &(dyn Fn(u64, u64, u64) + Sync),
 ) -> BatchReport {
     let next = AtomicU64::new(0);
     let stop = AtomicBool::new(false);
     let start = Instant::now();
+    // Watchdog state per worker: run index + 1 currently executing (0 = none), and when it started
+    let cur_run: Vec<AtomicU64> = (0..threads).map(|_| AtomicU64::new(0)).collect();
+    let cur_since: Vec<AtomicU64> = (0..threads).map(|_| AtomicU64::new(0)).collect();
+    let workers_done = AtomicU64::new(0);
+    let run_timeout_ms = std::env::var("VERIF_RUN_TIMEOUT_S").ok().and_then(|v| v.parse::<u64>().ok()).unwrap_or(120) * 1000;
 
     struct Acc {
         runs: u64,
@@ -294,10 +300,27 @@ pub fn batch(
     });
 
     std::thread::scope(|s| {
-        for _ in 0..threads {
+        // A run which does not come back (a loop inside one poll of the code under test cannot be
+        // bounded by the step limit) is reported by the watchdog, which then ends the process
+        s.spawn(|| loop {
+            std::thread::sleep(Duration::from_millis(250));
+            if workers_done.load(Ordering::Relaxed) as usize >= threads {
+                break;
+            }
+            let now = start.elapsed().as_millis() as u64;
+            for w in 0..threads {
+                let r = cur_run[w].load(Ordering::Relaxed);
+                if r != 0 && now.saturating_sub(cur_since[w].load(Ordering::Relaxed)) > run_timeout_ms {
+                    on_hang(run_seed(base_seed, r - 1), r - 1, run_timeout_ms / 1000);
+                }
+            }
+        });
+        for w in 0..threads {
+            let (cur_run, cur_since, workers_done) = (&cur_run, &cur_since, &workers_done);
+            let (next, stop, acc) = (&next, &stop, &acc);
             std::thread::Builder::new()
                 .stack_size(256 << 20)
-                .spawn_scoped(s, || {
+                .spawn_scoped(s, move || {
                     let mut local = Acc {
                         runs: 0,
                         sim_time_us: 0,
@@ -318,7 +341,10 @@ pub fn batch(
                             break;
                         }
                         let seed = run_seed(base_seed, run);
+                        cur_since[w].store(start.elapsed().as_millis() as u64, Ordering::Relaxed);
+                        cur_run[w].store(run + 1, Ordering::Relaxed);
                         let r = execute(sc, seed, Tape::generate(seed), false);
+                        cur_run[w].store(0, Ordering::Relaxed);
                         local.runs += 1;
                         local.sim_time_us += r.outcome.sim_time_us;
                         for (k, v) in &r.outcome.counters {
@@ -360,6 +386,8 @@ pub fn batch(
                     for (k, v) in local.known {
                         *a.known.entry(k).or_default() += v;
                     }
+                    drop(a);
+                    workers_done.fetch_add(1, Ordering::Relaxed);
                 })
                 .unwrap();
         }
